@@ -217,6 +217,33 @@ theorem startApps_mpool (cid : Nat) (blocked : List Nat) : ∀ (rest started : L
 
 /-! provisionContext, run -/
 
+theorem loadStorAt_pb (i : Inst) (m : Mod) (s : State) (live : List Live) :
+    PB s (loadStorAt i m s live).1 live (loadStorAt i m s live).2.1 := by
+  unfold loadStorAt
+  split
+  · exact PB.of_mpool rfl
+  · split
+    · exact PB.of_mpool rfl
+    · intro k; simp [keys_append_none, ev]
+
+theorem setStorage_pb (cid : Nat) (m : Mod) (s : State) (live : List Live) :
+    PB s (setStorage cid m s live).1 live (setStorage cid m s live).2.1 := by
+  unfold setStorage
+  split
+  · exact PB.of_mpool rfl
+  · split
+    · exact PB.rfl' _ _
+    · have h1 : PB s _ live _ := (PB.of_mpool (s := s) (s' := alloc s) rfl).trans
+        (loadStorAt_pb ⟨s.nseq, cid, 102, 0⟩ m (alloc s) live)
+      generalize loadStorAt ⟨s.nseq, cid, 102, 0⟩ m (alloc s) live = r at h1
+      obtain ⟨s', live', o⟩ := r
+      cases o with
+      | none => exact h1.trans (PB.of_mpool rfl)
+      | some r => exact h1
+
+theorem restoreStorage_mpool (s : State) : (restoreStorage s).mpool = s.mpool := by
+  unfold restoreStorage; split <;> rfl
+
 theorem provisionContext_mp (cid : Nat) (c : Cfg) (pp : List Nat) (s : State) :
     (∀ r, (provisionContext cid c pp s).2.2 = some r → ∀ k, (provisionContext cid c pp s).1.mpool k = s.mpool k) ∧
     ((provisionContext cid c pp s).2.2 = none → ∃ ctx, (provisionContext cid c pp s).2.1 = some ctx ∧
@@ -225,37 +252,49 @@ theorem provisionContext_mp (cid : Nat) (c : Cfg) (pp : List Nat) (s : State) :
   have h1 := openLogs_pb cid c.logs s
   generalize openLogs cid c.logs s = r1 at h1
   obtain ⟨s1, live1, wk, o1⟩ := r1
+  have e0 : ∀ k, (keys ([] : List Live)).count k = 0 := by intro k; simp [keys]
   cases o1 with
   | some r =>
     refine ⟨fun _ _ k => ?_, fun hh => by simp at hh⟩
-    show (cancel cid (onCancelOnCopy [] 0) wk live1 s1).mpool k = _
-    rw [show onCancelOnCopy [] 0 = ([] : List Nat) from rfl, cancel_mpool]
+    show (restoreStorage (cancel cid (onCancelOnCopy [] 0) wk live1 s1)).mpool k = _
+    rw [restoreStorage_mpool, show onCancelOnCopy [] 0 = ([] : List Nat) from rfl, cancel_mpool]
     have := h1 k
-    have e0 : (keys ([] : List Live)).count k = 0 := by simp [keys]
     rw [e0] at this
     simp only at this
     omega
   | none =>
     dsimp only
-    have h2 := h1.trans (loadApps_pb cid (order pp c.apps) s1 live1)
-    generalize loadApps cid (order pp c.apps) s1 live1 = r2 at h2
-    obtain ⟨s2, live2, o2⟩ := r2
-    cases o2 with
+    have h1' := h1.trans (setStorage_pb cid c.stor s1 live1)
+    generalize setStorage cid c.stor s1 live1 = r1' at h1'
+    obtain ⟨s1', live1', o1'⟩ := r1'
+    cases o1' with
     | some r =>
       refine ⟨fun _ _ k => ?_, fun hh => by simp at hh⟩
-      show (cancel cid (onCancelOnCopy [] 0) wk live2 s2).mpool k = _
-      rw [show onCancelOnCopy [] 0 = ([] : List Nat) from rfl, cancel_mpool]
-      have := h2 k
-      have e0 : (keys ([] : List Live)).count k = 0 := by simp [keys]
+      show (restoreStorage (cancel cid (onCancelOnCopy [] 0) wk live1' s1')).mpool k = _
+      rw [restoreStorage_mpool, show onCancelOnCopy [] 0 = ([] : List Nat) from rfl, cancel_mpool]
+      have := h1' k
       rw [e0] at this
       simp only at this
       omega
     | none =>
-      refine ⟨fun r hh => by simp at hh, fun _ => ⟨_, rfl, rfl, fun k => ?_⟩⟩
-      have := h2 k
-      have e0 : (keys ([] : List Live)).count k = 0 := by simp [keys]
-      rw [e0] at this
-      simpa using this
+      dsimp only
+      have h2 := h1'.trans (loadApps_pb cid (order pp c.apps) s1' live1')
+      generalize loadApps cid (order pp c.apps) s1' live1' = r2 at h2
+      obtain ⟨s2, live2, o2⟩ := r2
+      cases o2 with
+      | some r =>
+        refine ⟨fun _ _ k => ?_, fun hh => by simp at hh⟩
+        show (restoreStorage (cancel cid (onCancelOnCopy [] 0) wk live2 s2)).mpool k = _
+        rw [restoreStorage_mpool, show onCancelOnCopy [] 0 = ([] : List Nat) from rfl, cancel_mpool]
+        have := h2 k
+        rw [e0] at this
+        simp only at this
+        omega
+      | none =>
+        refine ⟨fun r hh => by simp at hh, fun _ => ⟨_, rfl, rfl, fun k => ?_⟩⟩
+        have := h2 k
+        rw [e0] at this
+        simpa using this
 
 theorem finishSettingUp_mp (ctx : Ctx) (post : Bool) (s : State) :
     (finishSettingUp ctx post s).1.mpool = s.mpool ∧
